@@ -46,7 +46,7 @@ def check_keyed(ctx, coq_ok):
     for proto in ("http2", "kafka"):
         hists = M.keyed_histories(ctx.rng, proto, ctx.tier == "quick")
         rc, out = ctx.vh("vh-match", ["seq"], inp="\n".join(M.keyed_line(proto, h) for h in hists) + "\n", timeout=1200)
-        lines = [l for l in out.splitlines() if l.startswith("{")]
+        lines = [l for l in out.split("\n") if l.startswith("{")]
         if rc != 0 or len(lines) != len(hists):
             ctx.broken.append("K_keyed[%s]: harness failed rc=%d (%d/%d results)" % (proto, rc, len(lines), len(hists)))
             ctx.log(out[-600:])
@@ -92,7 +92,7 @@ def check_keyed(ctx, coq_ok):
         if f.get("class") == "kafka-response-before-request" and isinstance(f.get("witness"), str):
             rc, out = ctx.vh("vh-match", ["seq"], inp=f["witness"] + "\n")
             try:
-                r = json.loads([l for l in out.splitlines() if l.startswith("{")][0])
+                r = json.loads([l for l in out.split("\n") if l.startswith("{")][0])
             except Exception:
                 continue
             if not r["items"]:
@@ -114,7 +114,7 @@ def run(ctx):
     for proto in PROTOS:
         inp = "\n".join(M.hist_line(proto, h) for h in hists) + "\n"
         rc, out = ctx.vh("vh-match", ["seq"], inp=inp, timeout=1200)
-        lines = [l for l in out.splitlines() if l.startswith("{")]
+        lines = [l for l in out.split("\n") if l.startswith("{")]
         if rc != 0 or len(lines) != len(hists):
             ctx.broken.append("K_seq[%s]: harness failed rc=%d (%d/%d results)" % (proto, rc, len(lines), len(hists)))
             ctx.log(out[-600:])
